@@ -40,9 +40,19 @@ def theorems():
     return "\n".join(rows)
 
 
+def glance_counts(s):
+    """Keep the leading theorem count of each row of the at-a-glance table (section 0) current."""
+    import importlib, sys
+    sys.path.insert(0, str(ROOT / "py"))
+    def fix(m):
+        mod = importlib.import_module(f"verifpy.props.c{m.group(1)}")
+        return f"{m.group(0)[:m.start(3) - m.start(0)]}{len(getattr(mod, 'THEOREMS', []))}"
+    return re.sub(r"^\| C(\d\d) \|([^|]*)\| (\d+)(?=[ :(])", fix, s, flags=re.M)
+
+
 def main():
     p = ROOT / "DESIGN.md"
-    s = p.read_text()
+    s = glance_counts(p.read_text())
     for tag, fn in (("FINDINGS", findings), ("SEEDED", seeded), ("THEOREMS", theorems)):
         s = re.sub(rf"(<!-- {tag}:BEGIN -->).*?(<!-- {tag}:END -->)", lambda m: m.group(1) + "\n" + fn() + "\n" + m.group(2), s, flags=re.S)
     p.write_text(s)
